@@ -85,6 +85,15 @@ def handleF (F : FieldImpl) : List String → String
     match a.toNat?, e.toNat? with
     | some a, some e => elem F (F.exp a e)
     | _, _ => "bad-op"
+  -- `exp_vartime` (trait default) denotes the same function as `exp`
+  | ["expv", a, e] =>
+    match a.toNat?, e.toNat? with
+    | some a, some e => s!"{F.asInt (F.exp (F.new a) e)}"
+    | _, _ => "bad-op"
+  | ["rexpv", a, e] =>
+    match a.toNat?, e.toNat? with
+    | some a, some e => s!"{F.asInt (F.exp a e)}"
+    | _, _ => "bad-op"
   | ["mulsmall", a, k] =>
     match a.toNat?, k.toNat? with
     | some a, some k => if F.name == "f64" then elem F (Gen.F64.mul_small a k) else "bad-op"
